@@ -33,7 +33,7 @@ import z3
 from vf.common import Plan, Obligation, Outcome, DISCHARGED, REFUTED, UNDECIDED
 from vf.pyvc.engine import T, Int, Float, Label, LabelSort, SeqT, SeqV, FloatV
 from vf.pyvc.contract import FnContract, Case, LoopSpec, obligations_for
-from vf.pyvc.ext import XWorld, XInterp, Enum, EnumV, GaussV, DictV, fresh_dict, gparts, gauss_type
+from vf.pyvc.ext import XWorld, XInterp, Enum, EnumV, GaussV, DictV, fresh_dict, gparts, gauss_type, with_standin
 from vf.symx.ring import Poly, Cyc, I_
 from vf.symx.scalar import Sym, sym, poly_matrix, to_poly, pm_matmul, pm_kron, pm_eye
 from refs import gates as G
@@ -376,9 +376,8 @@ def build(tier, seed):
         x = z3.Const("w_inv", LabelSort)
         done = TH.MEM(TH.TAKE(ks, i), x)
         L = LETF(letter_at(v.self, x), letter_at(v.other, x))
-        body = z3.And(z3.Implies(done, z3.And(z3.Select(R.dom, x) == (L != 0), z3.Implies(L != 0, z3.Select(R.val, x) == L))),
-                      z3.Implies(z3.Not(done), z3.And(z3.Select(R.dom, x) == z3.Select(base.dom, x),
-                                                       z3.Implies(z3.Select(base.dom, x), z3.Select(R.val, x) == z3.Select(base.val, x)))))
+        # stated on the EFFECTIVE letter of `result` (absent == I): the constructor strips stored identities anyway
+        body = z3.And(z3.Implies(done, letter_at(R, x) == L), z3.Implies(z3.Not(done), letter_at(R, x) == letter_at(base, x)))
         q = z3.ForAll([x], body, patterns=[z3.Select(R.dom, x), z3.Select(R.val, x)])
         cre, cim = gparts(v.coeff)
         return z3.And(q, cre == FRE(ks, i), cim == FIM(ks, i))
@@ -629,8 +628,8 @@ def build(tier, seed):
                                 lambda: Outcome(UNDECIDED, "pyvc", "mul_map / anticom_map entries are not (Gaussian-integer phase, letter): see the table lemmas"),
                                 func=(FILE, fc.qualname)))
             continue
-        for ob in obligations_for("C51", fc, tier, timeout=900):
-            plan.add(ob)
+        for ob, case in zip(obligations_for("C51", fc, tier, timeout=900), fc.cases):
+            plan.add(with_standin(ob, fc, case))
         plan.fn_under_contract(FILE, fc.qualname)
 
     # =================================================================================================== (c) generic sentences, real code
